@@ -286,6 +286,33 @@ pub fn dec_ok_buffer_20(n: i64, out: &mut Vec<u8>) {
 // twins for the path-sensitive "only under this test" analysis (boolpath) and the rules built
 // on it; module paths mirror ferrous where a rule is anchored on them
 pub mod storage {
+    pub mod consumer_groups {
+        use std::collections::HashMap;
+        use std::sync::RwLock;
+        pub struct Manager { pub groups: RwLock<HashMap<String, u64>> }
+        impl Manager {
+            pub fn cg_bad_insert_then_err(&self, name: String, v: u64) -> Result<(), String> {
+                let mut g = self.groups.write().unwrap();
+                match g.insert(name, v) { Some(_) => Err("BUSYGROUP".to_string()), None => Ok(()) }
+            }
+            pub fn cg_ok_check_then_insert(&self, name: String, v: u64) -> Result<(), String> {
+                let mut g = self.groups.write().unwrap();
+                if g.contains_key(&name) { return Err("BUSYGROUP".to_string()); }
+                g.insert(name, v);
+                Ok(())
+            }
+            pub fn cg_ok_remove_none_is_err(&self, name: &str) -> Result<u64, String> {
+                let mut g = self.groups.write().unwrap();
+                match g.remove(name) { Some(v) => Ok(v), None => Err("NOGROUP".to_string()) }
+            }
+            pub fn cg_ok_local_copy_mutated(&self, name: String) -> Result<usize, String> {
+                let mut copy = self.groups.read().unwrap().clone();
+                copy.insert(name, 0);
+                if copy.len() > 3 { return Err("too many".to_string()); }
+                Ok(copy.len())
+            }
+        }
+    }
     pub mod engine {
         pub fn pattern_matches(p: &str, t: &str) -> bool { p == t || p == "*" }
 
@@ -425,4 +452,122 @@ pub mod so {
     pub fn seq_bad_first_slice(d: &std::collections::VecDeque<u32>, x: u32) -> bool { d.as_slices().0.binary_search(&x).is_ok() }
     pub fn seq_ok_both(d: &std::collections::VecDeque<u32>, x: u32) -> bool { let (a, b) = d.as_slices(); a.binary_search(&x).is_ok() || b.binary_search(&x).is_ok() }
     pub fn seq_ok_contiguous(d: &mut std::collections::VecDeque<u32>, x: u32) -> bool { d.make_contiguous(); d.as_slices().0.binary_search(&x).is_ok() }
+}
+
+// ---- twins for the backward value-flow module (flow.py) and the rules built on it ----------------
+pub mod fl {
+    pub struct Frame(pub Vec<u8>);
+    impl Frame {
+        pub fn as_string(&self) -> Option<String> { Some(String::from_utf8_lossy(&self.0).to_string()) }
+        pub fn bytes(&self) -> &[u8] { &self.0 }
+    }
+    pub fn sink(names: Vec<Vec<u8>>) -> usize { names.len() }
+    fn names_lossy(args: &[Frame]) -> Option<Vec<Vec<u8>>> {
+        args.iter().map(|a| a.as_string().map(String::into_bytes)).collect()
+    }
+    pub fn fl_bad_lossy_helper_closure(args: &[Frame]) -> usize {
+        match names_lossy(args) { Some(n) => sink(n), None => 0 }
+    }
+    pub fn fl_bad_lossy_push(args: &[Frame]) -> usize {
+        let mut v = Vec::new();
+        for a in args { v.push(String::from_utf8_lossy(a.bytes()).to_uppercase().into_bytes()); }
+        sink(v)
+    }
+    pub fn fl_ok_bytes_push(args: &[Frame]) -> usize {
+        let mut v = Vec::new();
+        for i in 0..args.len() { v.push(args[i].bytes().to_vec()); }
+        sink(v)
+    }
+    pub fn fl_ok_bytes_collect(args: &[Frame]) -> usize {
+        sink(args.iter().map(|a| a.0.clone()).collect())
+    }
+    // the command NAME is upper-cased for dispatch; the argument is not on that flow
+    pub fn fl_ok_other_value_altered(args: &[Frame]) -> usize {
+        let name = String::from_utf8_lossy(args[0].bytes()).to_uppercase();
+        if name == "X" { return 0; }
+        sink(vec![args[1].bytes().to_vec()])
+    }
+
+    // single-element index: clamping on the flow
+    fn offset(len: usize, index: isize) -> usize { if index < 0 { len.saturating_sub(index.unsigned_abs()) } else { index as usize } }
+    pub fn idx_bad_clamped(list: &std::collections::VecDeque<Vec<u8>>, index: isize) -> Option<Vec<u8>> {
+        list.get(offset(list.len(), index)).cloned()
+    }
+    pub fn idx_ok_checked(list: &std::collections::VecDeque<Vec<u8>>, index: isize) -> Option<Vec<u8>> {
+        let len = list.len() as isize;
+        let idx = if index < 0 { len + index } else { index };
+        if idx >= 0 && idx < len { list.get(idx as usize).cloned() } else { None }
+    }
+    pub fn idx_ok_clamp_behind_range_check(list: &std::collections::VecDeque<Vec<u8>>, index: isize) -> Option<Vec<u8>> {
+        if index < -(list.len() as isize) { return None; }
+        list.get(offset(list.len(), index)).cloned()
+    }
+
+    // open modes
+    pub fn om_bad_create_new(p: &std::path::Path) -> std::io::Result<std::fs::File> {
+        std::fs::OpenOptions::new().write(true).create_new(true).open(p)
+    }
+    pub fn om_bad_no_truncate(p: &std::path::Path) -> std::io::Result<std::fs::File> {
+        std::fs::OpenOptions::new().write(true).create(true).open(p)
+    }
+    pub fn om_ok_create_truncate(p: &std::path::Path) -> std::io::Result<std::fs::File> {
+        std::fs::OpenOptions::new().write(true).create(true).truncate(true).open(p)
+    }
+    pub fn om_ok_file_create(p: &std::path::Path) -> std::io::Result<std::fs::File> { std::fs::File::create(p) }
+
+    // zero means forever
+    pub fn bf_bad_zero_only_on_integer_branch(s: &str) -> Option<Option<std::time::Duration>> {
+        if let Ok(secs) = s.parse::<u64>() {
+            return Some(if secs == 0 { None } else { Some(std::time::Duration::from_secs(secs)) });
+        }
+        match s.parse::<f64>() {
+            Ok(t) if t < 0.0 => None,
+            Ok(t) => std::time::Duration::try_from_secs_f64(t).ok().map(Some),
+            Err(_) => None,
+        }
+    }
+    pub fn bf_ok_float_pattern(s: &str) -> Option<Option<std::time::Duration>> {
+        match s.parse::<f64>() {
+            Ok(t) if t < 0.0 => None,
+            Ok(0.0) => Some(None),
+            Ok(t) => std::time::Duration::try_from_secs_f64(t).ok().map(Some),
+            Err(_) => None,
+        }
+    }
+    pub fn bf_ok_flag(s: &str) -> Option<Option<std::time::Duration>> {
+        let t = s.parse::<f64>().ok()?;
+        let forever = t == 0.0;
+        if t < 0.0 { return None; }
+        if forever { return Some(None); }
+        std::time::Duration::try_from_secs_f64(t).ok().map(Some)
+    }
+}
+
+pub mod network {
+    pub mod connection {
+        use std::io::Write;
+        pub struct Connection { pub stream: std::net::TcpStream, pub write_buffer: Vec<u8>, pub write_offset: usize }
+        impl Connection {
+            pub fn sock_bad_write_all(&mut self) -> std::io::Result<()> {
+                self.stream.write_all(&self.write_buffer[self.write_offset..])?;
+                self.write_offset = self.write_buffer.len();
+                Ok(())
+            }
+            pub fn sock_bad_count_dropped(&mut self) -> std::io::Result<()> {
+                let _n = self.stream.write(&self.write_buffer[self.write_offset..])?;
+                self.write_offset = self.write_buffer.len();
+                Ok(())
+            }
+            pub fn sock_ok_partial(&mut self) -> std::io::Result<()> {
+                while self.write_offset < self.write_buffer.len() {
+                    match self.stream.write(&self.write_buffer[self.write_offset..]) {
+                        Ok(0) => break,
+                        Ok(n) => { self.write_offset += n; }
+                        Err(e) => return Err(e),
+                    }
+                }
+                Ok(())
+            }
+        }
+    }
 }
